@@ -12,6 +12,9 @@
 package main
 
 import (
+	"bytes"
+	"crypto/sha1"
+	"encoding/hex"
 	"regexp"
 	"strconv"
 
@@ -54,8 +57,7 @@ func lexFingerprint(src string, res map[string]any) {
 		res["lex_err"] = err.Error()
 		return
 	}
-	var h uint64 = 14695981039346656037
-	mix := func(b byte) { h ^= uint64(b); h *= 1099511628211 }
+	var buf bytes.Buffer
 	n := 0
 	for _, t := range toks {
 		if t.Name == "EOF" {
@@ -63,21 +65,16 @@ func lexFingerprint(src string, res map[string]any) {
 			continue
 		}
 		n++
-		for i := 0; i < len(t.Lexeme); i++ {
-			mix(t.Lexeme[i])
-		}
-		mix(0)
-		for _, c := range strconv.Itoa(t.Line) {
-			mix(byte(c))
-		}
-		mix(':')
-		for _, c := range strconv.Itoa(t.Column) {
-			mix(byte(c))
-		}
-		mix(1)
+		buf.WriteString(t.Lexeme)
+		buf.WriteByte(0)
+		buf.WriteString(strconv.Itoa(t.Line))
+		buf.WriteByte(':')
+		buf.WriteString(strconv.Itoa(t.Column))
+		buf.WriteByte(1)
 	}
+	sum := sha1.Sum(buf.Bytes())
 	res["ntok"] = n
-	res["lex_fp"] = strconv.FormatUint(h, 16)
+	res["lex_fp"] = hex.EncodeToString(sum[:])
 }
 
 func doLex(j *common.Job, res map[string]any) {
